@@ -8,7 +8,7 @@ PROP_FILES = ["Cache/Properties_C12.v"]
 MANIFEST = dict(
     technique="Coq proof (reachable-state invariant over operation histories) on a Gallina model of cache/mod.rs + process_file_with_cache / load_cache / save_cache; tied by replaying generated histories on the real CLI with every invocation paired with its --no-sloc-cache twin and by comparing outputs and cache.json with the extracted model",
     text="Theorems C12_transparent_modulo_known (every Run of every history with a non-decreasing clock and no same-(mtime,size) rename collision gives out_cached = out_uncached), C12_refuted_rename_same_meta (witness), C12_no_racy_write (the D13 window is closed by the racy-clean rule), C12_corrupt_is_ignored, C12_config_hash_sufficient and the reachable-state invariant C12_cache_invariant hold for every history (unbounded) and every counter oracle. The tie to the Rust code is a seeded CLI replay: writes with os.utime, clock with SGV_NOW, same-size and same-second rewrites, deletes, renames, [languages] changes, cache corruption (truncation sweep, foreign version, wrong hash, garbage, empty, removed).",
-    note="Trusted: Coq kernel, extraction, the counter (its answers enter as the oracle `truth`, computed with sgv-counter), SHA-256 / serde_json injectivity (the configuration hash is modelled as the [languages] table itself), SGV_NOW and os.utime. Two custom languages claiming one extension (D23) is outside the model (single-owner extensions); with two or more custom languages the configuration hash depends on HashMap order, so only outputs (not cache.json) are compared there.",
+    note="Trusted: Coq kernel, extraction, the counter (its answers enter as the oracle `truth`, computed with sgv-counter), injectivity of compute_config_hash on [languages] tables (a hypothesis of the theorems; C12_refuted_colliding_hash shows it is needed; the run checks that different tables observed have different hashes and that boundary-moving edits of a definition invalidate the cache), SGV_NOW and os.utime. Two custom languages claiming one extension (D23) is outside the model (single-owner extensions); ",
     ref="5 (C12)")
 
 K_D13 = "K12_same_second_same_size"
@@ -36,10 +36,6 @@ def parse_model(line):
     return segs, {k: v == "1" for k, v in fl.items()}
 
 
-def multi_lang(h):
-    return any(o[0] == "L" and len({l for _, l in o[1]}) >= 2 for o in h)
-
-
 def check_history(case, runs, mline, hash_by_cfg):
     """-> (oracle_failures, model_mismatches, flags). Each failure is a dict."""
     segs, flags = parse_model(mline)
@@ -47,7 +43,6 @@ def check_history(case, runs, mline, hash_by_cfg):
     fails, mism = [], []
     if len(segs) != len(runs):
         return fails, [{"what": "number of runs differs", "model": len(segs), "impl": len(runs)}], flags
-    ml = multi_lang(h)
     for i, (r, (mc, mu, mcache)) in enumerate(zip(runs, segs)):
         ca, un = r["cached"], r["uncached"]
         # ---- property oracle on the implementation: same output, same exit code, never fatal
@@ -60,18 +55,23 @@ def check_history(case, runs, mline, hash_by_cfg):
         pu = parse_out(r["kind"], un[1])
         if pu != model_out(r["kind"], mu):
             mism.append({"run": i, "side": "uncached", "impl": str(pu)[:600], "model": str(model_out(r["kind"], mu))[:600]})
-        if not ml:
-            pc = parse_out(r["kind"], ca[1])
-            if pc != model_out(r["kind"], mc):
-                mism.append({"run": i, "side": "cached", "impl": str(pc)[:600], "model": str(model_out(r["kind"], mc))[:600]})
-            mv = mcache.split(" ")
-            model_view = mv[0] + " " + mv[2] if len(mv) == 3 else mcache
-            if r["cache"] != model_view:
-                mism.append({"run": i, "side": "cache.json", "impl": r["cache"][:800], "model": model_view[:800]})
-            key = tuple(sorted(r["langs"]))
-            if r["hash"] is not None:
-                if hash_by_cfg.setdefault(key, r["hash"]) != r["hash"]:
-                    mism.append({"run": i, "side": "config_hash", "what": "same [languages] table, different hash"})
+        pc = parse_out(r["kind"], ca[1])
+        if pc != model_out(r["kind"], mc):
+            mism.append({"run": i, "side": "cached", "impl": str(pc)[:600], "model": str(model_out(r["kind"], mc))[:600]})
+        mv = mcache.split(" ")
+        model_view = mv[0] + " " + mv[2] if len(mv) == 3 else mcache
+        if r["cache"] != model_view:
+            mism.append({"run": i, "side": "cache.json", "impl": r["cache"][:800], "model": model_view[:800]})
+        # ---- the assumption on the configuration hash (injective on [languages] tables), tied both ways:
+        # same table -> same hash, different tables observed -> different hashes
+        if r["hash"] is not None:
+            key = table_key(r["langs"])
+            if hash_by_cfg.setdefault(("t", key), r["hash"]) != r["hash"]:
+                mism.append({"run": i, "side": "config_hash", "what": "same [languages] table, different hash", "table": str(key)})
+            other = hash_by_cfg.setdefault(("h", r["hash"]), key)
+            if other != key:
+                mism.append({"run": i, "side": "config_hash", "what": "two different [languages] tables have the same config_hash: the injectivity assumption of C12_transparent_modulo_known fails",
+                             "table_a": str(other), "table_b": str(key), "hash": r["hash"]})
     return fails, mism, flags
 
 
@@ -110,6 +110,9 @@ def run(ctx):
             j = json.loads(line)
             cases.append({"h": norm_history(j["h"]), "tag": "corpus", "contents": j["contents"], "name": j.get("name")})
     n_dir, n_rand = (50, 70) if quick else (1500, 2500)
+    n_bnd = 36 if quick else 600
+    for _ in range(n_bnd):
+        cases.append({"h": boundary_history(rng, contents, tab), "tag": "languages-boundary"})
     for _ in range(n_dir):
         cases.append({"h": directed_history(rng, contents, tab), "tag": "directed"})
     for _ in range(n_rand):
@@ -168,13 +171,13 @@ def run(ctx):
     ctx.cov["traces_validated_against_impl"] = len(cases) - len(all_mism)
     ctx.cov["model_vs_impl_mismatches"] = len(all_mism)
     ctx.cov["rule"] = ("histories of Write(os.utime) / Delete / Rename / SetLanguages (custom languages, overriding built-in extensions) / Corrupt / Run(check, stats summary, stats files, snapshot; SGV_NOW) "
-                       "replayed on sgcli in a Sandbox; every Run executed twice (with and without --no-sloc-cache): evaluations = CLI invocations. Directed histories put a same-size rewrite in the second of a "
+                       "replayed on sgcli in a Sandbox; every Run executed twice (with and without --no-sloc-cache): evaluations = CLI invocations. Languages-boundary histories edit one definition so that only a list boundary, an empty item, the marker order, the name or the extension split changes, on a file the two definitions classify differently. Directed histories put a same-size rewrite in the second of a "
                        "previous run, rename a same-(mtime,size) file over a cached path, or keep the rewrite one second apart; a truncation sweep cuts cache.json at every %d-th byte (size %d). "
                        "Compared: stdout+exit code of the pair (property oracle), per-file statistics / totals and cache.json entries against the extracted Coq model. "
                        "non-trivial = histories with at least one edit, rename, delete, configuration change or corruption between two runs" % (64 if quick else 8, csize))
     ctx.cov["input_distribution"] = dist
     ctx.cov["trusted_base"] = TRUSTED_COMMON + ["the counter's answers enter the model as the oracle `truth` (computed with sgv-counter)",
-                                                "SHA-256 and serde_json serialisation of [languages] are assumed injective (configuration hash modelled as the table itself)",
+                                                "compute_config_hash is assumed injective on [languages] tables (hypothesis of the theorems); tied in the run: same table -> same hash, different tables -> different hashes",
                                                 "SGV_NOW clock hook, os.utime; mtime of a rename is preserved by the file system"]
     ctx.assumptions = ["wall-clock values of a history never decrease and a file's mtime is the second of its last write",
                        "single-owner extensions in [languages] (two custom languages claiming one extension: D23, C20)"]
@@ -279,12 +282,13 @@ def xcheck(ctx, cases, mlines, k):
             tl.append("| %s, %s => %s" % (l, cid, v))
     defs = ("From Coq Require Import NArith List Bool.\nFrom SG Require Import Cache.Model.\nOpen Scope N_scope.\n"
             "Definition tr (l c : N) : option lstats := match l, c with\n%s\n| _, _ => None end.\n"
-            "Definition cs (c : N) : N := match c with\n%s\n| _ => 0 end.\n" % ("\n".join(tl), "\n".join(sl)))
+            "Definition cs (c : N) : N := match c with\n%s\n| _ => 0 end.\n"
+            "Definition ch (c : langs) : N := fold_right (fun x a => 1 + fst x + 64 * (snd x + 1024 * a)) 0 c.\n" % ("\n".join(tl), "\n".join(sl)))
     b = "(fun b : bool => if b then 1 else 0)"
     exprs = []
     for i in idx:
         hh = "(" + coq_history(cases[i]) + ")"
-        exprs.append("[%s (has_racy_write tr cs %s); %s (has_racy_rename tr cs %s); %s (has_forgery tr cs %s); %s (monotone_clock %s); %s (transparent tr cs %s)]" % (b, hh, b, hh, b, hh, b, hh, b, hh))
+        exprs.append("[%s (has_racy_write tr cs ch %s); %s (has_racy_rename tr cs ch %s); %s (has_forgery tr cs ch %s); %s (monotone_clock %s); %s (transparent tr cs ch %s)]" % (b, hh, b, hh, b, hh, b, hh, b, hh))
     res = coq_eval(defs, exprs)
     bad = 0
     for i, r in zip(idx, res):
